@@ -13,7 +13,8 @@
 (* sequence is inside the property's quantifier.                           *)
 (* An event that conforms only under a "dev" reading is reported as DEV    *)
 (* (an observation, not a violation).  The class table is the file named   *)
-(* by env C17_MCC (an input; see Preprocess).                              *)
+(* by env C17_MCC (allsorts' own table; its values are constrained by      *)
+(* ModifiedCcc.tla / MC_ModifiedCcc, see Preprocess).                      *)
 (***************************************************************************)
 EXTENDS Preprocess, SequencesExt
 
